@@ -4,6 +4,7 @@ Model: `runTaskF` (executor.rs:187-229), `isDoneNow` (mod.rs:436-440), `pollNext
 -/
 import CruxVerif.Lemmas.RtTask
 import CruxVerif.Lemmas.K2Evict
+import CruxVerif.Lemmas.EvictComplete
 namespace Props.C07
 open M.Rt
 
@@ -64,6 +65,20 @@ theorem host_sees_done_exactly (settle : Nat → World → Option World) (wk : W
     (pollNextF settle wk cid w = some (.finished, w') → w'.isDoneNow cid = true) ∧
     (pollNextF settle wk cid w = some (.pending, w') → w'.isDoneNow cid = false) :=
   ⟨pollNextF_finished settle wk cid w w', pollNextF_pending settle wk cid w w'⟩
+
+/-- COMPLETENESS of eviction, the one-request case (`…_partial`: the full statement `evict_complete_goal` below quantifies
+    over whole commands): a task suspended at a one-shot request (command API) whose `Request` the shell has dropped is
+    discarded as `Cancelled` by its next poll — the poll learns that the channel is closed and registers no waker — given
+    that the serial handed to this poll's waker is fresh (held nowhere, not flagged; serials come from a counter) and
+    the task has not been aborted. Together with `finishTask` this is what lets a command report done after a drop. -/
+theorem evict_complete_dropped_request_partial (pn : Waker → Nat → World → Option (NextRes × World)) (f : Nat)
+    (cid tid : Nat) (w : World) (t : Task) (env : Env) (x l : Nat) (rest : List Instr)
+    (hg : (w.cmd cid).tasks.get? tid = some t) (hfut : t.fut = .mk env (.req x l) rest)
+    (hab : (w.getMeta t.serial).aborted = false)
+    (hq : (w.leaf l).queue = []) (hs : (w.leaf l).senderAlive = false) (hl : (w.leaf l).legacy = false)
+    (hfresh : w.holders w.nextSerial = 0) (hnw : w.woken.contains w.nextSerial = false) :
+    (runTaskF (pollBlock pn (f + 1)) cid tid w).map (·.1) = some .cancelled :=
+  dropped_request_evicts pn f cid tid w t env x l rest hg hfut hab hq hs hl hfresh hnw
 
 /-- STATED, NOT PROVED: completeness of eviction — a command whose tasks wait only on shell requests reports done once
     all of them have been resolved or dropped. True of the DSL fragment modelled here (checked by the correspondence on
